@@ -129,6 +129,12 @@ Theorem C06_source_is_model_value_only : forall (N : Num) Env fit fixed_poi_fit 
   (neqb_sound N -> gen_q0_value N Env fit fixed_poi_fit poi_index poi_lower mu e = value_only N (q0 N Env fit fixed_poi_fit poi_index mu e)).
 Proof. exact tie_value_only_all. Qed.
 
+(* both fits behind every statistic are run on the caller's problem: the statistic at e depends on the fits through their results at e only *)
+Theorem C06_fits_run_on_callers_problem : forall (N : Num) Env (fit fit' : Env -> list (V N) * V N) (fixed fixed' : V N -> Env -> list (V N) * V N)
+  poi_index poi_lower s mu (e : Env), fit e = fit' e -> (forall m, fixed m e = fixed' m e) ->
+  teststat N Env fit fixed poi_index poi_lower s mu e = teststat N Env fit' fixed' poi_index poi_lower s mu e.
+Proof. exact fits_consulted_at_callers_env. Qed.
+
 Print Assumptions C06_value_cases.
 Print Assumptions C06_teststat_nonneg.
 Print Assumptions C06_pars_are_the_fits.
@@ -152,3 +158,4 @@ Print Assumptions C06_source_is_model_q0.
 Print Assumptions C06_source_is_model_q0_rationals.
 Print Assumptions C06_source_is_model_q0_reals.
 Print Assumptions C06_source_is_model_value_only.
+Print Assumptions C06_fits_run_on_callers_problem.
